@@ -851,7 +851,17 @@ func (c *fnCtx) stmts(list []ast.Stmt, ind string) string {
 		if !terminates(elseL) {
 			elseL = append(append([]ast.Stmt{}, elseL...), rest...)
 		}
-		return fmt.Sprintf("%sif %s then\n%s\n%selse\n%s", ind, cond, c.stmts(thenL, ind+"  "), ind, c.stmts(elseL, ind))
+		thenS, elseS := c.stmts(thenL, ind+"  "), c.stmts(elseL, ind)
+		// `if c { return true }; return false` is `return c` (and the negated form): one definition for both spellings
+		if !c.inLoop && !c.opt {
+			switch t, e := strings.TrimSpace(thenS), strings.TrimSpace(elseS); {
+			case t == "true" && e == "false":
+				return ind + cond
+			case t == "false" && e == "true":
+				return ind + "(!" + paren(cond) + ")"
+			}
+		}
+		return fmt.Sprintf("%sif %s then\n%s\n%selse\n%s", ind, cond, thenS, ind, elseS)
 	case *ast.BlockStmt:
 		return c.stmts(append(append([]ast.Stmt{}, s.List...), rest...), ind)
 	case *ast.RangeStmt:
